@@ -43,9 +43,65 @@ def BOUNDS(tier):
     return {"max_nodes": 5, "devs": {1: 3, 2: 4, 3: 3, 4: 2, 5: 1}, "max_msgs": 9}
 
 
+def wide_programs():
+    """An action with many children; sub-actions sit at positions whose decimal renderings are
+    prefixes of one another (2 / 20 / 21, 1 / 10 / 11, 3 / 30)."""
+    out = []
+    for n, subs in ((22, (0, 18, 19)), (31, (1, 28)), (12, (0, 8, 9))):  # positions (2, 20, 21), (3, 30), (2, 10, 11)
+        kids = []
+        for i in range(n):
+            if i in subs:
+                kids.append(["a", {}, [["m", {}], ["a", {}, []]]])
+            else:
+                kids.append(["m", {}])
+        out.append([["a", {}, kids]])
+    return out
+
+
+def run_wide(p):
+    """Too many messages for the lattice: arrival orders = emission, reverse, every rotation, and
+    'each sub-tree first / last'."""
+    it, raw, seen = progs.run_to_file(p)
+    msgs = progs.parse_lines(raw)
+    n = len(msgs)
+    orders = [msgs, msgs[::-1]] + [msgs[r:] + msgs[:r] for r in range(1, n)]
+    deep = [m for m in msgs if len(m["task_level"]) > 1]
+    groups = {}
+    for m in deep:
+        groups.setdefault(m["task_level"][0], []).append(m)
+    for g in groups.values():
+        rest = [m for m in msgs if m not in g]
+        orders += [g + rest, rest + g, g[::-1] + rest[::-1]]
+    ks = sorted(groups)
+    for a in ks:
+        for b in ks:
+            if a != b:
+                rest = [m for m in msgs if m not in groups[a] and m not in groups[b]]
+                orders.append(groups[b] + groups[a] + rest)
+    viol = []
+    ref = None
+    for order in orders:
+        try:
+            tasks = list(Parser.parse_stream(order))
+        except Exception as e:
+            viol.append(("wide:parse_stream-raised", {"error": repr(e)[:200]}))
+            break
+        if len(tasks) != 1 or not tasks[0].is_complete():
+            viol.append(("wide:complete-task-not-reported-complete", {"tasks": len(tasks), "children": len(p[0][2])}))
+            break
+        tree = progs.from_written(tasks[0].root())
+        if ref is None:
+            ref = tree
+        elif tree != ref:
+            viol.append(("wide:order-dependent-tree", {"children": len(p[0][2])}))
+            break
+    return Result(outcome=[n, len(orders)], states=len(orders), transitions=len(orders) * n,
+                  executions=len(orders), violations=viol[:2], extra={"wide_orders_parsed": len(orders)})
+
+
 def units(tier):
     b = BOUNDS(tier)
-    out = []
+    out = [["wide", i] for i in range(len(wide_programs()))]
     for n in range(1, b["max_nodes"] + 1):
         ns = sum(1 for _ in progs.forests(n))
         for si in range(ns):
@@ -61,6 +117,9 @@ def _valid(p):
 
 
 def cases(unit, tier):
+    if unit[0] == "wide":
+        yield ["wide", wide_programs()[unit[1]]]
+        return
     n, si = unit
     b = BOUNDS(tier)
     for i, sh in enumerate(progs.forests(n)):
@@ -99,6 +158,8 @@ def _has_root(t):
 
 
 def run_case(p):
+    if p and p[0] == "wide":
+        return run_wide(p[1])
     msgs, it = messages_of(p)
     n = len(msgs)
     states, transitions, viol, completions = lat.subset_lattice(msgs)
